@@ -137,6 +137,28 @@ def replay_case(chk: core.Check, case: dict, units) -> None:
             bad("C20.WrongException", name, o[1])
         elif o[1] not in req:
             bad("C20.WrongIndex", name, o[1])
+        lo, hi = (q2 - 1) // 2, (q2 + 1) // 2
+        if op == "near" and q2 % 2 and lo in col and hi in col and dev2 >= 2:
+            # a TIE of the model (query midway between two adjacent row times).  Embedded in decimal times (multiples of 0.01,
+            # 0.02, 0.1 s: not dyadic) the float midpoint is rounded, so the query at / one ulp around it is NOT a tie any more:
+            # which of the two rows is nearer is decided in exact rational arithmetic on the float values (the projection),
+            # what follows from it - the nearer row, the earlier one on a tie, first of equal rows - is the model's rule
+            from fractions import Fraction as Fr
+            for sc in (0.01, 0.02, 0.1, 0.3):
+                a, b = lo * sc, hi * sc
+                rows2 = [impl.make_row(time=v * sc, distance=m.Unit.Foot(float(i)), flag=_flag(i, q2 + n)) for i, v in enumerate(col)]
+                hr2 = m.HitResult(shot, rows2, False)
+                mid = (a + b) / 2
+                for qq in (mid, math.nextafter(mid, math.inf), math.nextafter(mid, -math.inf)):
+                    da, db = Fr(qq) - Fr(a), Fr(b) - Fr(qq)
+                    want2 = col.index(lo) if da <= db else col.index(hi)
+                    o2 = impl.outcome(H.find_index_for_time_point, hr2, qq, False, 5.0)
+                    chk.count(1, ("near-decimal", tuple(col), q2, sc, qq))
+                    chk.stratum("near_midpoint_of_decimal_times" + ("_later_row_nearer" if da > db else ""))
+                    if o2[0] != "ok":
+                        bad("C20.WrongException", name + " decimal times", o2[1])
+                    elif o2[1] != want2:
+                        bad("C20.WrongIndex", name + " decimal times", {"got": o2[1], "want": want2, "query": qq, "rows": [v * sc for v in col]})
     elif op == "apex":
         rows = [impl.make_row(time=float(i), distance=m.Unit.Foot(float(i)), height=m.Unit.Foot(float(v)), flag=_flag(i, sum(col) + n))
                 for i, v in enumerate(col)]
@@ -183,7 +205,7 @@ def run(chk: core.Check, replay=None) -> None:
         chk.traces += 1
     for c in cases[:: max(1, len(cases) // 5)][:5]:
         chk.sample(c)
-    chk.require_strata(["dist", "time", "near", "apex", "empty", "repeats", "sentinel", "rows_in_mixed_display_units", "rows_and_queries_one_ulp_apart"])
+    chk.require_strata(["dist", "time", "near", "apex", "empty", "repeats", "sentinel", "rows_in_mixed_display_units", "rows_and_queries_one_ulp_apart", "near_midpoint_of_decimal_times", "near_midpoint_of_decimal_times_later_row_nearer"])
     chk.rule.append("every non-decreasing sequence (len<=%d over 0..%d) x every (half-)integer query x every entry point, "
                     "generated by TLC from Gen_Lookup; non-trivial = sequence length >= 2; distinct by (op, sequence, "
                     "query, entry point, unit)" % (maxlen, maxval))
